@@ -5,7 +5,7 @@ ROOT = os.path.dirname(os.path.dirname(os.path.abspath(__file__)))
 sys.path.insert(0, os.path.join(ROOT, "tools"))
 import props
 
-ALL = [f"C{i:02d}" for i in range(1, 21)]
+ALL = [f"C{i:02d}" for i in range(1, 21)]  # C03x etc. are development sub-checks merged into their parent
 checks = []
 for pid in ALL:
     if pid not in props.PROPS:
